@@ -107,6 +107,23 @@ Proof.
   unfold lbfgsb_status. destruct (wf =? 0)%Z eqn:E0; [ | destruct (wf =? 1)%Z eqn:E1]; cbn; repeat split; intros; try lia; try discriminate.
 Qed.
 
+(* ---------------- the call SciPy receives ---------------- *)
+Lemma wrappers_call_translation :
+  (forall grad kwargs, lb_options (lbfgsb_call grad kwargs) = kwargs /\ lb_fprime_given (lbfgsb_call grad kwargs) = grad /\
+                       (lb_approx_grad (lbfgsb_call grad kwargs) = 1%Z <-> grad = false) /\
+                       (lb_approx_grad (lbfgsb_call grad kwargs) = 0%Z <-> grad = true)) /\
+  (forall method loss tol maxit, lsc_method (ls_translate method loss tol maxit) = method /\ lsc_loss (ls_translate method loss tol maxit) = loss /\
+                                 map fst (lsc_options (ls_translate method loss tol maxit)) = ls_option_names /\
+                                 map snd (lsc_options (ls_translate method loss tol maxit)) = [inject_Z (Qround.Qfloor maxit); tol]) /\
+  (forall method grad kwargs, mz_method (minimize_call method grad kwargs) = method /\ mz_jac_given (minimize_call method grad kwargs) = grad /\
+                              mz_options (minimize_call method grad kwargs) = kwargs).
+Proof.
+  split; [ | split].
+  - intros [] kwargs; cbn; repeat split; intros; try reflexivity; try discriminate.
+  - intros; cbn; repeat split.
+  - intros; cbn; repeat split.
+Qed.
+
 (* ---------------- the matrix form at Qc ---------------- *)
 Section QcMatrix.
 Variables (n : nat) (A : list (list Qc)).
